@@ -247,6 +247,7 @@ func runC11File(c Case, m *Model) (v Verdict) {
 	}
 	var does []doEv
 	var doErr error
+	var repeatBad string
 	// the same iteration restricted to some message types (TracksReader.Only): must hand out the matching events of
 	// the unrestricted iteration with the same ticks and times
 	filters := [][]midi.Type{{smf.MetaTempoMsg}, {midi.NoteOnMsg}, {smf.MetaTextMsg, smf.MetaTempoMsg}, {midi.ChannelMsg}, {smf.MetaMsg}, {smf.MetaEndOfTrackMsg}}
@@ -263,11 +264,33 @@ func runC11File(c Case, m *Model) (v Verdict) {
 		for i, t := range f.ts {
 			times[i] = s.TimeAt(t)
 		}
+		// TimeAt is a function of the tick: asked again in the opposite order (and after the iterations below) it
+		// answers the same
+		for i := len(f.ts) - 1; i >= 0; i-- {
+			if again := s.TimeAt(f.ts[i]); again != times[i] {
+				repeatBad = fmt.Sprintf("TimeAt(%d) = %d when asked in ascending position, %d when asked again in the opposite order", f.ts[i], times[i], again)
+			}
+		}
 		tr := smf.ReadTracksFrom(bytes.NewReader(data))
 		tr.Do(func(te smf.TrackEvent) {
 			does = append(does, doEv{te.TrackNo, te.AbsTicks, te.AbsMicroSeconds, te.Message.Type()})
 		})
 		doErr = tr.Error()
+		// the same reader iterated a second time hands out the same
+		var does2 []doEv
+		tr.Do(func(te smf.TrackEvent) {
+			does2 = append(does2, doEv{te.TrackNo, te.AbsTicks, te.AbsMicroSeconds, te.Message.Type()})
+		})
+		if len(does2) != len(does) {
+			repeatBad = fmt.Sprintf("a second Do on the same TracksReader hands out %d events, the first %d", len(does2), len(does))
+		} else {
+			for i := range does {
+				if does[i] != does2[i] {
+					repeatBad = fmt.Sprintf("a second Do on the same TracksReader: event %d is %v, was %v", i, does2[i], does[i])
+					break
+				}
+			}
+		}
 		for i, fl := range filters {
 			i := i
 			smf.ReadTracksFrom(bytes.NewReader(data)).Only(fl...).Do(func(te smf.TrackEvent) {
@@ -281,6 +304,9 @@ func runC11File(c Case, m *Model) (v Verdict) {
 	if err != nil || doErr != nil {
 		v.Oracle = append(v.Oracle, fmt.Sprintf("writing or reading the file failed: %v %v", err, doErr))
 		return
+	}
+	if repeatBad != "" {
+		v.Oracle = append(v.Oracle, repeatBad)
 	}
 	// the tempo changes the reader collected
 	tcs := s.TempoChanges()
